@@ -83,7 +83,13 @@ class C05(Base):
             nm, sm = self.SWEEP[tier]
             if idx:
                 nm, sm = 2 * nm, 2 * sm
-            return ListDriver([["sweep", fn, nm, sm]])
+            ops = [["sweep", fn, nm, sm]]
+            if idx == 0:
+                # the one-unit closed form is O(1): probe very large n too
+                for n in (65537, 2 ** 27 + 3, 10 ** 9 + 7, 3 * 10 ** 12 + 1,
+                          2 ** 62 + 1):
+                    ops.append(["call", "optimal_steps_binomial", n, 1])
+            return ListDriver(ops)
         if rng.random() < self.LARGE[tier]:
             N = rng.randint(80, 400)
             if rng.random() < 0.5:
@@ -232,8 +238,12 @@ class C06(Base):
         nmax, _ = self.SIZES[tier]
         if idx == 0:
             from ..driver import ListDriver
-            return ListDriver([["sweep", "mixed_step_memoization",
-                                *self.SWEEP[tier]]])
+            ops = [["sweep", "mixed_step_memoization", *self.SWEEP[tier]]]
+            for n in (65537, 2 ** 27 + 3, 10 ** 9 + 7, 3 * 10 ** 12 + 1,
+                      2 ** 62 + 1):
+                ops.append(["call", "optimal_steps_mixed", n, 1])
+                ops.append(["call", "mixed_step_memoization", n, 1])
+            return ListDriver(ops)
         others, calls = _cotenants(rng, nmax)
         N = draw_N(rng, nmax, small=max(10, nmax // 6))
         s = draw_units(rng, N, 1 if N > 1 else 0)
